@@ -127,7 +127,9 @@ fn gen_mv(rng: &mut Rng) -> (M4, String, bool) {
     }
     let r = rational_rotation(rng, 2);
     let s = if rng.chance(1, 3) { [Q::ONE; 3] } else { [small_q_nonzero(rng, 3, 2), small_q_nonzero(rng, 3, 2), small_q_nonzero(rng, 3, 2)] };
-    let t = [small_q(rng, 6, 4), small_q(rng, 6, 4), small_q(rng, 6, 4)];
+    // a quarter of the model-views have no translation at all (pure rotation / scale): matrices with
+    // unit rows or columns are where "is this affine?" shortcuts go wrong
+    let t = if rng.chance(1, 4) { [Q::ZERO; 3] } else { [small_q(rng, 6, 4), small_q(rng, 6, 4), small_q(rng, 6, 4)] };
     let mut m = identity4();
     let mut mixing = false;
     for i in 0..3 {
@@ -165,7 +167,40 @@ fn gen_proj(rng: &mut Rng) -> (M4, String) {
         let p = rng.range_i64(1, q - 1);
         angle_from_quarter_tan(Q::frac(p, q))
     };
-    match rng.below(8) {
+    match rng.below(11) {
+        8 | 9 => loop {
+            // sparse perturbation of the identity: 1..6 random entries (any row, the bottom row
+            // included) replaced by small rationals; rows / columns that stay unit vectors are the point
+            let mut m = identity4();
+            let k = 1 + rng.usize_below(6);
+            for _ in 0..k {
+                let (i, j) = (rng.usize_below(4), rng.usize_below(4));
+                m[i][j] = small_q(rng, 4, 3);
+            }
+            if !det(m).is_zero() {
+                return (m, format!("identity with {} entries replaced: {:?}", k, m));
+            }
+        },
+        10 => loop {
+            // one/two/three-point perspective: identity (or a diagonal) whose bottom row is (a, b, c, d)
+            let mut m = identity4();
+            if rng.bool() {
+                for i in 0..3 {
+                    m[i][i] = small_q_nonzero(rng, 3, 2);
+                }
+            }
+            for j in 0..3 {
+                if rng.bool() {
+                    m[3][j] = small_q(rng, 4, 3);
+                }
+            }
+            if rng.chance(1, 3) {
+                m[3][3] = small_q_nonzero(rng, 3, 2);
+            }
+            if !det(m).is_zero() {
+                return (m, format!("diagonal with bottom row {:?}", m[3]));
+            }
+        },
         0 => {
             let pl = gen_planes(rng);
             (raw(&Rows4::<Q>::orthographic_rh_no(pl)), format!("orthographic_rh_no({:?})", pl))
